@@ -17,7 +17,7 @@ use stun_types::message::{IntegrityAlgorithm, Message, MessageType};
 use stun_types::TransportType;
 
 /// size of the address universe (indices are `u8` in the operations)
-pub const NADDR: usize = 256;
+pub const NADDR: usize = 8192;
 /// the core addresses every generator draws from and every observation covers; the rest of the
 /// universe (indices NCORE..NADDR) is only used by the many-peers shapes and observed once touched
 pub const NCORE: usize = 8;
@@ -37,7 +37,7 @@ pub fn addr(i: usize) -> SocketAddr {
         6 => "[::ffff:198.51.100.7]:40000".parse().unwrap(),
         7 => "[2001:db8::1]:3479".parse().unwrap(),
         _ if i % 3 == 0 => format!("[2001:db8:77::{:x}]:{}", i, 20000 + i).parse().unwrap(),
-        _ => format!("100.64.{}.{}:{}", i / 16, i, 20000 + i).parse().unwrap(),
+        _ => format!("100.{}.{}.{}:{}", 64 + i / 4096, (i / 16) % 256, i % 256, 20000 + i).parse().unwrap(),
     }
 }
 pub fn local_addr() -> SocketAddr {
@@ -129,6 +129,8 @@ pub enum Op {
     Poll(PollAt),
     Response { tid: u8, from: u8, error: bool, seal: RespSeal, fp: bool },
     Incoming { request: bool, tid: u8, from: u8 },
+    /// `count` indications, one from each of the addresses first, first+1, ... (indices may exceed u8)
+    IncomingBurst { first: u16, count: u16 },
     Cancel(u8),
     CancelRetrans(u8),
     /// configure_timeout(rto ms + rto_us µs, n, last ms + last_us µs)
@@ -201,6 +203,7 @@ impl Op {
             },
             Op::Response { tid, from, error, seal, fp } => json!({"op": "response", "tid": tid, "from": from, "error": error, "seal": seal_json(seal), "fp": fp}),
             Op::Incoming { request, tid, from } => json!({"op": "incoming", "request": request, "tid": tid, "from": from}),
+            Op::IncomingBurst { first, count } => json!({"op": "incoming_burst", "first": first, "count": count}),
             Op::Cancel(t) => json!({"op": "cancel", "tid": t}),
             Op::CancelRetrans(t) => json!({"op": "cancel_retransmissions", "tid": t}),
             Op::Configure { tid, rto, n, last, rto_us, last_us } => json!({"op": "configure", "tid": tid, "rto": rto, "n": n, "last": last, "rto_us": rto_us, "last_us": last_us}),
@@ -240,6 +243,7 @@ impl Op {
             }),
             "response" => Op::Response { tid: u("tid")? as u8, from: u("from")? as u8, error: v.get("error")?.as_bool()?, seal: seal_from(v.get("seal")?)?, fp: v.get("fp")?.as_bool()? },
             "incoming" => Op::Incoming { request: v.get("request")?.as_bool()?, tid: u("tid")? as u8, from: u("from")? as u8 },
+            "incoming_burst" => Op::IncomingBurst { first: u("first")? as u16, count: u("count")? as u16 },
             "cancel" => Op::Cancel(u("tid")? as u8),
             "cancel_retransmissions" => Op::CancelRetrans(u("tid")? as u8),
             "configure" => Op::Configure { tid: u("tid")? as u8, rto: u("rto")?, n: u("n")? as u32, last: u("last")?, rto_us: u("rto_us").unwrap_or(0) as u16, last_us: u("last_us").unwrap_or(0) as u16 },
@@ -1025,11 +1029,13 @@ impl<'c> Eng<'c> {
             R::InProgress => {
                 self.res.log.push(format!("send@{} {kind:?} tid#{i} -> AlreadyInProgress", ft(now as i128)));
                 if !(is_req && outstanding) {
+                    // a refused request with a free id is a C05 matter (ids are reusable); a refused
+                    // indication / response is a C18 one ("transmitted once, unmodified")
                     self.fail(
-                        "C05",
-                        if is_req { "finished-id-reusable" } else { "non-request-sent" },
+                        if is_req { "C05" } else { "C18" },
+                        if is_req { "finished-id-reusable" } else { "non-request-transmitted" },
                         "StunAgent::send",
-                        "",
+                        if is_req { "" } else if outstanding { "id-of-an-outstanding-request" } else { "free-id" },
                         "Ok(Transmit)".into(),
                         "Err(AlreadyInProgress)".into(),
                     );
@@ -1044,10 +1050,10 @@ impl<'c> Eng<'c> {
         }
     }
 
-    fn do_handle(&mut self, bytes: Vec<u8>, from: u8, is_response: bool, tid: u8) {
-        self.touch(from as usize);
+    fn do_handle(&mut self, bytes: Vec<u8>, from: usize, is_response: bool, tid: u8) {
+        self.touch(from);
         let now = self.now;
-        let from_a = addr(from as usize);
+        let from_a = addr(from);
         let rp = ref_parse(&bytes);
         enum R {
             Drop,
@@ -1100,8 +1106,7 @@ impl<'c> Eng<'c> {
         if !is_response {
             match r {
                 R::Incoming(t, c) if t == tid_bytes(i) && c == rp.class => {
-                    self.model.validated.insert(from as usize % NADDR);
-                    self.touch(from as usize);
+                    self.model.validated.insert(from % NADDR);
                     self.ctx.count("incoming-accepted");
                 }
                 _ => self.fail("C15", "incoming-handed-back", "StunAgent::handle_stun", "", "IncomingStun(the same message)".into(), rname),
@@ -1178,8 +1183,7 @@ impl<'c> Eng<'c> {
                 }
                 self.model.txs.remove(&i);
                 self.model.completions.insert(tx.incarnation, "Delivered".into());
-                self.model.validated.insert(from as usize % NADDR);
-                    self.touch(from as usize);
+                self.model.validated.insert(from % NADDR);
                 self.ctx.count("completed-delivered");
                 self.ctx.count(if tx.had_integrity { "delivered-authenticated" } else { "delivered-unauthenticated" });
             }
@@ -1233,11 +1237,22 @@ impl<'c> Eng<'c> {
             }
             Op::Response { tid, from, error, seal, fp } => {
                 let b = build_response(*tid, *error, *seal, *fp, self.step as u16);
-                self.do_handle(b, *from, true, *tid);
+                self.do_handle(b, *from as usize, true, *tid);
             }
             Op::Incoming { request, tid, from } => {
                 let b = build_incoming(*request, *tid, self.step as u16);
-                self.do_handle(b, *from, false, *tid);
+                self.do_handle(b, *from as usize, false, *tid);
+            }
+            Op::IncomingBurst { first, count } => {
+                for j in 0..*count as usize {
+                    if self.failed {
+                        break;
+                    }
+                    let tid = (j % NTID) as u8;
+                    let b = build_incoming(false, tid, j as u16);
+                    self.do_handle(b, *first as usize + j, false, tid);
+                }
+                self.ctx.count_n("burst-peers", *count as u64);
             }
             Op::Cancel(tid) | Op::CancelRetrans(tid) => {
                 let i = *tid as usize % NTID;
